@@ -79,17 +79,27 @@ Inductive cstep (s : cstate) (t : nat) : option label -> cstate -> Prop :=
 | cs_flush_snap : at_t s t OFlush TGate ->
     cstep s t None (set_pc (lin_add s t OFlush RFlushed) t OFlush (TFlushSnap (c_bitmap s)))
 | cs_flush_persist ids : at_t s t OFlush (TFlushSnap ids) ->
-    cstep s t (Some LPersist) (with_threads s t OFlush (TFinishing RFlushed) (c_store s) (c_bitmap s) (c_next s) (c_lin s) (c_persist s ++ [(t, ids)])).
+    cstep s t (Some LPersist) (with_threads s t OFlush (TFinishing RFlushed) (c_store s) (c_bitmap s) (c_next s) (c_lin s) (c_persist s ++ [(t, ids)]))
+| cs_get_check_ok i h : at_t s t (OGet i h) TIdle -> mem i (c_bitmap s) = true -> cstep s t None (set_pc s t (OGet i h) TGetChecked)
+| cs_get_check_no i h : at_t s t (OGet i h) TIdle -> mem i (c_bitmap s) = false ->
+    cstep s t None (set_pc (lin_add s t (OGet i h) RNotFound) t (OGet i h) (TDone RNotFound))
+| cs_get_read i h d : at_t s t (OGet i h) TGetChecked -> get (c_store s) i = Some d ->
+    cstep s t (if h then None else Some (LGet i (Some d))) (set_pc (lin_add s t (OGet i h) (RDoc d)) t (OGet i h) (TFinishing (RDoc d)))
+| cs_get_read_none i h : at_t s t (OGet i h) TGetChecked -> get (c_store s) i = None ->
+    cstep s t (if h then None else Some (LGet i None)) (set_pc (lin_add s t (OGet i h) RNotFound) t (OGet i h) (TFinishing RNotFound)).
 
 Lemma tstep_cstep s t s' l : tstep s t = Some (s', l) -> cstep s t l s'.
 Proof.
   unfold tstep. destruct (nth_error (c_threads s) t) as [[o p]|] eqn:Hat; [|discriminate].
   fold (no_excl s) (no_holder s).
   destruct p; try discriminate.
-  - (* TIdle *) destruct (is_flush o) eqn:Hf.
-    + destruct o; try discriminate. destruct (no_holder s) eqn:Hn; [|discriminate].
-      intros H; inversion H; subst. apply cs_gate_x; auto.
-    + destruct (no_excl s) eqn:Hn; [|discriminate]. intros H; inversion H; subst. apply cs_gate_s; auto.
+  - (* TIdle *) destruct o as [d|i u|i| |i h].
+    5: { destruct (mem i (c_bitmap s)) eqn:Hm; intros H; inversion H; subst.
+         - apply cs_get_check_ok; auto.
+         - apply cs_get_check_no; auto. }
+    4: { simpl. destruct (no_holder s) eqn:Hn; [|discriminate].
+         intros H; inversion H; subst. apply cs_gate_x; auto. }
+    all: simpl; destruct (no_excl s) eqn:Hn; [|discriminate]; intros H; inversion H; subst; apply cs_gate_s; auto.
   - (* TGate *) destruct o.
     + intros H; inversion H; subst. apply (cs_alloc s t d); auto.
     + destruct (mem i (c_bitmap s)) eqn:Hm; intros H; inversion H; subst.
@@ -99,6 +109,7 @@ Proof.
       * eapply cs_check_ok; eauto. reflexivity.
       * apply cs_rem_check_no; auto.
     + intros H; inversion H; subst. apply cs_flush_snap; auto.
+    + discriminate.
   - (* TAddAlloc *) destruct o; try discriminate.
     destruct (get (c_store s) i) eqn:Hg; intros H; inversion H; subst.
     + eapply cs_create_conflict; eauto.
@@ -128,6 +139,10 @@ Proof.
   - (* TRemIntent *) destruct o; try discriminate. intros H; inversion H; subst. apply cs_rem_delete; auto.
   - (* TRemDeleted *) destruct o; try discriminate. intros H; inversion H; subst. apply cs_rem_bitmap; auto.
   - (* TFlushSnap *) destruct o; try discriminate. intros H; inversion H; subst. apply cs_flush_persist; auto.
+  - (* TGetChecked *) destruct o; try discriminate.
+    destruct (get (c_store s) i) eqn:Hg; intros H; inversion H; subst.
+    + apply cs_get_read; auto.
+    + apply cs_get_read_none; auto.
   - (* TFinishing *) intros H; inversion H; subst. apply cs_finish; auto.
 Qed.
 
